@@ -6,6 +6,7 @@
 import ErgoProofs.Lemmas.RenderLayout
 import ErgoProofs.Lemmas.RenderRows
 import ErgoProofs.Lemmas.ReachInv
+import ErgoProofs.Lemmas.DiskInv
 namespace Ergo
 open Render
 
@@ -58,5 +59,15 @@ theorem C19_ready_exact (log : List Event) (h : ReachOK log) :
 theorem C19_glyphs (g : Graph) (v : View) (hwf : WF g) (h14 : Inv14 g) (hid : ∀ t ∈ g.tasks, t.id ≠ "") (r : Row) (hr : r ∈ rows g v) :
     ∃ t ∈ g.tasks, t.id = r.id ∧ (r.child = true ↔ (t.isEpic = false ∧ t.epicId ≠ "")) :=
   rows_child_iff g v hwf h14 hid r hr
+
+/-- the picture is a picture of the **file**: after any command history the bytes of the store read back (real line format) to a log whose
+    `list --all` shows every live item on exactly one row and whose `list --ready` shows exactly the ready tasks -/
+theorem C19_list_of_the_bytes_on_disk_is_complete {limit : Nat} {log : List Event} {f : Storage.Bytes} (h : Codec.DiskReach limit log f) :
+    ∃ g, Storage.readEvents Codec.classifyLine limit f = .ok log ∧ replay log = .ok g ∧
+      ((rows g .all).map (·.id)).Perm (g.tasks.map (·.id)) ∧
+      ∀ t ∈ g.tasks, t.isEpic = false → (t.id ∈ (rows g .ready).map (·.id) ↔ isReady g t = true) := by
+  obtain ⟨g, hf, hr, hinv⟩ := Codec.disk_allInv h
+  exact ⟨g, hf, hr, rows_all g hinv.ok.wf hinv.i07 hinv.i14 hinv.ids,
+    fun t ht hne => rows_ready g hinv.ok.wf hinv.i07 hinv.i14 hinv.ids t ht hne⟩
 
 end Ergo
